@@ -87,3 +87,67 @@ class NPF:
         for i in range(n):
             out[i] = start if i == 0 else (SF(nxt) if i == 1 else SF(z3.fpAdd(RNE, start.t, z3.fpMul(RNE, fv(i), delta))))
         return out
+
+
+def _pow(self, o):
+    """x**n for small integer n (float or int exponent): repeated rounding multiplications.
+    numpy calls C pow, which is (nearly) correctly rounded: for n=2 the two agree exactly; for n>2 the stub may differ
+    in the last bits - verdicts that depend on it are always taken from the concrete replay."""
+    n = int(o)
+    if n != o or n < 0 or n > 64:
+        raise TypeError('SF ** %r not encodable' % (o,))
+    if n == 0:
+        return SF(fv(1.0))
+    r = self
+    for _ in range(n - 1):
+        r = r * self
+    return r
+
+
+SF.__pow__ = _pow
+
+
+def fp_value(model, var):
+    """the double a z3 model assigns to a Float64 variable, bit for bit"""
+    import struct
+    bv = model.eval(z3.fpToIEEEBV(var), model_completion=True).as_long()
+    return struct.unpack('>d', bv.to_bytes(8, 'big'))[0]
+
+
+def solve_fp(assertions, var_names, timeout_s=300):
+    """decide a QF_FP query: cvc5 binary first (much faster on these kernels), then z3. Returns (verdict, {name: float})."""
+    import subprocess, tempfile, os, re, struct
+    sv = z3.Solver()
+    sv.add(*assertions)
+    smt = sv.to_smt2().replace('(check-sat)', '(check-sat)\n(get-value (%s))' % ' '.join(var_names))
+    smt = '(set-option :produce-models true)\n(set-logic QF_FP)\n' + smt
+    fd, name = tempfile.mkstemp(suffix='.smt2', dir=os.environ.get('TMPDIR', '/tmp')); os.close(fd)
+    open(name, 'w').write(smt)
+    try:
+        for cmd in (['cvc5', '--tlimit=%d' % (timeout_s * 1000), name],):
+            try:
+                p = subprocess.run(cmd, capture_output=True, text=True, timeout=timeout_s + 20)
+            except Exception:
+                continue
+            out = p.stdout or ''
+            if '(error' in out:
+                continue
+            first = out.strip().splitlines()[0] if out.strip() else ''
+            if first == 'unsat':
+                return 'unsat', {}
+            if first == 'sat':
+                vals = {}
+                for nm in var_names:
+                    m = re.search(r'\(%s \(fp #b([01]) #b([01]+) #b([01]+)\)\)' % re.escape(nm), out)
+                    if m:
+                        bits = int(m.group(1) + m.group(2) + m.group(3), 2)
+                        vals[nm] = struct.unpack('>d', bits.to_bytes(8, 'big'))[0]
+                return 'sat', vals
+    finally:
+        os.unlink(name)
+    sv.set('timeout', timeout_s * 1000)
+    r = str(sv.check())
+    if r == 'sat':
+        m = sv.model()
+        return 'sat', {nm: fp_value(m, z3.FP(nm, F64)) for nm in var_names}
+    return r, {}
